@@ -58,12 +58,13 @@ def gen_layout(rng, tier):
             "cycles": (260 if tier == "quick" else 700) * (2 if large else 1) * (8 if rng.random() < 0.04 else 1)}
 
 
-def build_map(layout):
-    """Build the live memory map; returns (map, probes in resource order, skipped adds)."""
+def build_map(layout, mm=None, first=0, last=None):
+    """Build (or continue building) the live memory map; returns (map, skipped adds)."""
     aw, dw, al = layout["aw"], layout["dw"], layout["al"]
-    mm = MemoryMap(addr_width=aw, data_width=dw, alignment=al)
+    if mm is None:
+        mm = MemoryMap(addr_width=aw, data_width=dw, alignment=al)
     skipped = 0
-    for i, r in enumerate(layout["regs"]):
+    for i, r in list(enumerate(layout["regs"]))[first:last]:
         p = Probe(r["width"], r["access"])
         nchunks = max(1, (r["width"] + dw - 1) // dw)
         size = nchunks + (r["extra"] if r["place"] == "padded" else 0)
@@ -88,7 +89,18 @@ def run_mux_case(case, judged):
     rng = random.Random(case["stim_seed"])
     layout = case
     dw, aw = layout["dw"], layout["aw"]
-    mm, skipped_adds = build_map(layout)
+    late = rng.random() < 0.25 and len(layout["regs"]) >= 2
+    split = rng.randint(1, len(layout["regs"]) - 1) if late else None
+    mm, skipped_adds = build_map(layout, last=split)
+    early_dut = None
+    if late:
+        # the Multiplexer object is created first; the map is not frozen by it, so more registers are added afterwards
+        try:
+            early_dut = csr.Multiplexer(mm, shadow_overlaps=layout["overlaps"])
+        except ValueError:
+            early_dut = None
+        _mm, more = build_map(layout, mm=mm, first=split)
+        skipped_adds += more
     res = list(mm.resources())
     regs = [{"start": s, "end": e, "width": p.element.width, "access": p.element.access.value, "probe": p}
             for p, _n, (s, e) in res]
@@ -104,7 +116,9 @@ def run_mux_case(case, judged):
                           summary=summary)
     from vmon.simkit import decoy
     decoy(rng, lambda: csr.Multiplexer(build_map(layout)[0], shadow_overlaps=layout["overlaps"]))
-    dut = csr.Multiplexer(mm, shadow_overlaps=layout["overlaps"])
+    dut = early_dut if early_dut is not None else csr.Multiplexer(mm, shadow_overlaps=layout["overlaps"])
+    if early_dut is not None:
+        mon.count("multiplexers_created_before_their_last_registers")
     bus = dut.bus
     model = MuxModel(regs, dw)
     n = len(regs)
